@@ -18,6 +18,15 @@ Three facts, regenerated from the source under test on every run:
    (instance attribute) by a function returning a result with given success/blocked flags, for every pair of
    verdict classes: success / neither / failure, read off the breaker's counters.
 
+4. `carried`: which attributes of the loop object carry information from one phase of a request to a later phase
+   of the SAME request, obtained by EVALUATION: `run` is executed on a subclass whose `__setattr__` /
+   `__getattribute__` log every access to instance data, the stub agents mark the phase boundaries (look-up |
+   executor consulted | assessor consulted | finish), and mutable containers are fingerprinted at the boundaries.
+   An attribute is listed when it was modified in one phase and read in a later one.  The model's phases
+   (`lookup`, `finish`, ... in Model/Cffl.lean) hand on nothing but the request's locals (prompt, verdicts) and the
+   modelled state (`stateAttrs`); an attribute outside that list (a parked cache key, a parked agent output) makes
+   `c07_request_state_is_local` fail: under overlapping requests it would be overwritten by the other request.
+
 Fail closed: anything unexpected (import error, unknown action string, counters moving in an unforeseen way,
 a verdict used in another way) yields `ok := false` and empty tables, which makes `c07_gate_table_*` /
 `c08_run_classification_table` fail to check.
@@ -182,7 +191,94 @@ def run_classification(L, T):
     return out
 
 
-def render(ok, rows, tokens_ok, lits, shape_ok, rc, why="") -> str:
+def _fp(v):
+    """fingerprint of an attribute value: changes whenever the value or the content of a container changes"""
+    import collections
+    if isinstance(v, dict):
+        return ("dict", tuple((repr(k), id(x)) for k, x in v.items()))
+    if isinstance(v, (list, tuple, set, frozenset, collections.deque)):
+        return (type(v).__name__, tuple(id(x) for x in v))
+    if v is None or isinstance(v, (bool, int, float, str, bytes)):
+        return ("v", repr(v))
+    return ("id", id(v))
+
+
+def carried_state(L, T):
+    """attributes modified in one phase of run() and read in a later phase of the same run()"""
+    log = {"on": False, "phase": 0, "reads": set(), "writes": set(), "start": {}}
+    flagged = set()
+
+    class Traced(L.CoherentFeedForwardLoop):
+        def __setattr__(self, k, v):
+            if log["on"]:
+                log["writes"].add((k, log["phase"]))
+            object.__setattr__(self, k, v)
+
+        def __getattribute__(self, k):
+            if log["on"] and k in object.__getattribute__(self, "__dict__"):
+                log["reads"].add((k, log["phase"]))
+            return object.__getattribute__(self, k)
+
+    def snapshot(loop):
+        return {k: _fp(v) for k, v in object.__getattribute__(loop, "__dict__").items()}
+
+    def boundary(loop):
+        """end of the current phase: what did it modify?"""
+        on = log["on"]
+        log["on"] = False
+        now = snapshot(loop)
+        for k, f in now.items():
+            if log["start"].get(k) != f:
+                log["writes"].add((k, log["phase"]))
+        log["start"] = now
+        log["phase"] += 1
+        log["on"] = on
+
+    class Agent:
+        def __init__(self, name, loop):
+            self.name, self.loop, self.next = name, loop, None
+
+        def express(self, signal):
+            boundary(self.loop)
+            if self.next is None:
+                raise RuntimeError("E2 agent failure")
+            return self.next
+
+    def traced_run(loop, prompt, z, y):
+        loop.executor.next = None if z is None else T.ActionProtein(z, "p", 0.5)
+        loop.assessor.next = None if y is None else T.ActionProtein(y, "p", 0.5)
+        log.update(phase=0, reads=set(), writes=set(), start=snapshot(loop))
+        log["on"] = True
+        try:
+            with contextlib.redirect_stdout(io.StringIO()):
+                loop.run(prompt)
+        finally:
+            log["on"] = False
+        boundary(loop)
+        for (k, j) in log["writes"]:
+            if any(k2 == k and j2 > j for (k2, j2) in log["reads"]):
+                flagged.add(k)
+
+    from operon_ai.state.metabolism import ATP_Store
+    for kw in ({}, {"failure_threshold": 1, "recovery_timeout_seconds": 0, "cache_ttl_seconds": 0},
+               {"enable_cache": False, "enable_circuit_breaker": False}):
+        for g in L.GateLogic:
+            with contextlib.redirect_stdout(io.StringIO()):
+                loop = Traced(budget=ATP_Store(budget=10 ** 9, silent=True), gate_logic=g, silent=True, **kw)
+            loop.executor = Agent("E2-executor", loop)
+            loop.assessor = Agent("E2-assessor", loop)
+            traced_run(loop, "carried probe 1", "EXECUTE", "PERMIT")     # miss, success
+            traced_run(loop, "carried probe 1", "EXECUTE", "PERMIT")     # hit (or expired entry replaced)
+            traced_run(loop, "carried probe 2", "FAILURE", "PERMIT")     # failure (trips at threshold 1)
+            traced_run(loop, "carried probe 3", "EXECUTE", "PERMIT")     # probe after the (zero) timeout
+            traced_run(loop, "carried probe 4", None, "PERMIT")          # executor raises
+            traced_run(loop, "carried probe 5", "EXECUTE", None)         # assessor raises
+            traced_run(loop, "carried probe 6", "EXECUTE", "BLOCK")      # intentional block
+            traced_run(loop, "carried probe 2", "EXECUTE", "PERMIT")
+    return sorted(flagged)
+
+
+def render(ok, rows, tokens_ok, lits, shape_ok, rc, carried=None, why="") -> str:
     L = ["import Operon.Model.Cffl",
          "/-! GENERATED by harness/vf/extract/e2.py from operon_ai/topology/loops.py — do not edit.",
          "    Regenerated on every run of the C07 / C08 checks; the committed copy is the snapshot of the clean tree. -/",
@@ -209,6 +305,12 @@ def render(ok, rows, tokens_ok, lits, shape_ok, rc, why="") -> str:
     L.append(",\n".join(f"  ({_b(s)}, {_b(b)}, {_s(z)}, {_s(y)}, {ev})" for (s, b, z, y, ev) in rc))
     L.append("]")
     L.append("")
+    L.append("/-- attributes of the loop object that were modified in one phase of a `run` (look-up | executor consulted |")
+    L.append("    assessor consulted | finish) and read in a later phase of the same `run`, observed on the real code;")
+    L.append("    `none`: the observation failed -/")
+    L.append("def carried : Option (List String) := "
+             + ("none" if carried is None else "some [" + ", ".join(_s(x) for x in carried) + "]"))
+    L.append("")
     L.append("end Operon.Gen.GateTable")
     return "\n".join(L) + "\n"
 
@@ -224,13 +326,20 @@ def extract():
         rc = run_classification(L, T)
         traced_runs(L, T)
         lits, shape_ok = sorted(TStr.lits), not TStr.other
+        try:
+            carried = carried_state(L, T)
+        except Exception as e:  # fail closed: `none` makes c07_request_state_is_local fail
+            carried = None
+            carried_err = f"{type(e).__name__}: {e}"[:200]
         L.datetime = saved_dt
-        text = render(True, rows, tokens_ok, lits, shape_ok, rc)
+        text = render(True, rows, tokens_ok, lits, shape_ok, rc, carried)
         note = (f"{len(rows)} gate rows, {len(rc)} run-classification rows, literals {lits}"
-                + (f", OTHER USES of action_type: {sorted(TStr.other)}" if TStr.other else ""))
+                + (f", OTHER USES of action_type: {sorted(TStr.other)}" if TStr.other else "")
+                + (f", state carried across phases of run(): {carried}" if carried is not None
+                   else f", CARRIED-STATE OBSERVATION FAILED: {carried_err}"))
     except Exception as e:  # fail closed
         why = f"{type(e).__name__}: {e}".replace("\n", " ")[:200].replace("-/", "- /")
-        text = render(False, [], False, [], False, [], why)
+        text = render(False, [], False, [], False, [], None, why)
         note = "UNRECOGNISED: " + why + " | " + traceback.format_exc()[-300:]
     changed = write_if_changed(OUT, text)
     return [{"id": "E2", "file": str(OUT.relative_to(LEAN)), "facts_changed": changed, "note": note}]
